@@ -136,6 +136,11 @@ HOLDER_DICT_SPEC = T.Dict([
     ('eo', T.Object(M.Empty).noneable()),
     ('sd', T.Dict([('x', T.Int(default=0))]).noneable()),
     ('sl', T.List(T.Int()).noneable()),
+    # numeric bounds at the boundary value 0 (upper, lower, both; -0.0)
+    ('zb', T.Dict([('i', T.Int(max_value=0, default=0)),
+                   ('f', T.Float(min_value=-1.0, max_value=0.0, default=0.0)),
+                   ('p', T.Int(min_value=0, max_value=0, default=0))]).noneable()),
+    ('zl', T.List(T.Float(max_value=-0.0), max_size=3).noneable()),
     (T.StrKey(), T.Object(M.ReqMid)),
 ])
 
@@ -396,52 +401,68 @@ def scope_suffix(names):
 
 # -- related specs / reference diagnosis ------------------------------------------
 
-def _num_variant(rng, spec):
-  isint = isinstance(spec, T.Int)
-  def vary(b):
-    zero = 0 if isint else rng.choice([0.0, -0.0])
-    opts = [b, b, b, None, zero]
-    if b is not None:
-      opts += [b + 1, b - 1] if isint else [b + 0.5, b - 0.5]
-    else:
-      opts += [3 if isint else 2.5]
-    return rng.choice(opts)
-  lo, hi = vary(spec.min_value), vary(spec.max_value)
-  if lo is not None and hi is not None and lo > hi:
-    lo, hi = spec.min_value, spec.max_value
-  return (T.Int if isint else T.Float)(min_value=lo, max_value=hi)
+class _Plan:
+  """Which parameters of a spec are changed: every changeable parameter is a
+  site (visited in a fixed order); either exactly one site is changed (`pick`)
+  or every site with probability `p` (p == 0: only count the sites)."""
+
+  def __init__(self, rng, pick=None, p=0.0):
+    self.rng, self.pick, self.p, self.weights = rng, pick, p, []
+
+  def hit(self, weight=1):
+    i = len(self.weights)
+    self.weights.append(weight)
+    if self.pick is not None:
+      return i == self.pick
+    return self.p > 0 and self.rng.random() < self.p
 
 
-def variant_spec(rng, spec, top=True):
-  """A spec RELATED to `spec`: same shape and keys; numeric bounds, regular
-  expressions, size bounds, noneable / frozen / default modifiers are kept or
-  changed (looser, tighter, dropped, boundary value 0). What a user has at hand
-  when a value typed for one schema is handed to a neighbouring one."""
+def _vary_bound(rng, b, isint):
+  zero = 0 if isint else rng.choice([0.0, -0.0])
+  step = 1 if isint else 0.5
+  opts = [None, zero, b + step, b - step] if b is not None else [zero, 3 * step, -step]
+  opts = [x for x in opts if x is None or b is None or x != b or str(x) != str(b)]
+  return rng.choice(opts)
+
+
+def _variant(plan, spec, top):
+  rng = plan.rng
   if isinstance(spec, (T.Int, T.Float)) and getattr(spec, 'transform', None) is None:
-    s = _num_variant(rng, spec) if rng.random() < 0.6 else type(spec)(
-        min_value=spec.min_value, max_value=spec.max_value)
+    isint = isinstance(spec, T.Int)
+    lo, hi = spec.min_value, spec.max_value
+    # bounds are what neighbouring schemas differ in most often
+    if plan.hit(3):
+      lo = _vary_bound(rng, lo, isint)
+    if plan.hit(3):
+      hi = _vary_bound(rng, hi, isint)
+    if lo is not None and hi is not None and lo > hi:
+      lo, hi = spec.min_value, spec.max_value
+    s = (T.Int if isint else T.Float)(min_value=lo, max_value=hi)
   elif isinstance(spec, T.Str):
     rx = spec.regex.pattern if spec.regex is not None else None
-    s = T.Str(regex=rng.choice([rx, rx, None, rng.choice(REGEXES)]))
+    if plan.hit():
+      rx = rng.choice([x for x in [None] + REGEXES if x != rx])
+    s = T.Str(regex=rx)
   elif isinstance(spec, T.List):
     lo, hi = spec.min_size or 0, spec.max_size
-    lo2 = rng.choice([lo, lo, 0, lo + 1])
-    hi2 = rng.choice([hi, hi, None, (hi + 1) if hi is not None else 3,
-                      max(hi - 1, 0) if hi is not None else 2])
-    if hi2 is not None and lo2 > hi2:
-      lo2, hi2 = lo, hi
-    s = T.List(variant_spec(rng, spec.element.value, False), min_size=lo2, max_size=hi2)
+    if plan.hit():
+      lo = rng.choice([0, lo + 1] if lo else [1, 2])
+    if plan.hit():
+      hi = rng.choice([None, hi + 1, max(hi - 1, 0)] if hi is not None else [2, 3])
+    if hi is not None and lo > hi:
+      lo, hi = spec.min_size or 0, spec.max_size
+    s = T.List(_variant(plan, spec.element.value, False), min_size=lo, max_size=hi)
   elif isinstance(spec, T.Dict):
     if spec.schema is None:
       return T.Dict()
     fields = []
     for k, f in spec.schema.fields.items():
       fields.append((k.text if isinstance(k, T.ConstStrKey) else copy.deepcopy(k),
-                     variant_spec(rng, f.value, False)))
+                     _variant(plan, f.value, False)))
     s = T.Dict(fields)
   elif isinstance(spec, T.Enum):
     vals = list(spec.values)
-    if rng.random() < 0.3:
+    if plan.hit():
       vals = vals + ['zz'] if rng.random() < 0.5 else (vals[:-1] or vals)
     s = T.Enum(vals[0], vals)
   else:
@@ -449,19 +470,37 @@ def variant_spec(rng, spec, top=True):
       return copy.deepcopy(spec)
     except Exception:  # pylint: disable=broad-except
       return spec
+  noneable = spec.is_noneable
+  if not top and plan.hit():
+    noneable = not noneable
+  keep_frozen = not (spec.frozen and plan.hit())
+  keep_default = not (spec.has_default and not spec.frozen and plan.hit())
   try:
-    if spec.is_noneable and (top or rng.random() < 0.8):
-      s = s.noneable()
-    elif not top and not spec.is_noneable and rng.random() < 0.08:
+    if noneable:
       s = s.noneable()
     if spec.frozen and spec.has_default:
-      if rng.random() < 0.5:
+      if keep_frozen:
         s = s.freeze(copy.deepcopy(spec.default))
-    elif spec.has_default and spec.default is not None and not top and rng.random() < 0.7:
+    elif spec.has_default and spec.default is not None and not top and keep_default:
       s = s.set_default(copy.deepcopy(spec.default))
   except Exception:  # the kept default does not fit the changed bounds
     pass             # pylint: disable=broad-except
   return s
+
+
+def variant_spec(rng, spec):
+  """A spec RELATED to `spec`: same shape and keys; numeric bounds, regular
+  expressions, size bounds, noneable / frozen / default modifiers are kept or
+  changed (looser, tighter, dropped, boundary value 0) - in exactly one place
+  (a neighbouring schema) or in several. What a user has at hand when a value
+  typed for one schema is handed to a neighbouring one."""
+  if rng.random() < 0.6:
+    count = _Plan(rng)
+    _variant(count, spec, True)
+    if count.weights:
+      pick = rng.choices(range(len(count.weights)), weights=count.weights)[0]
+      return _variant(_Plan(rng, pick=pick), spec, True)
+  return _variant(_Plan(rng, p=0.3), spec, True)
 
 
 # Why the typed-operand shortcut (KNOWN defect B) lets a value through: the
@@ -1304,7 +1343,7 @@ def run_case(ctx, i):
     elif r < 0.26:
       step = gen_move(rng, forest, c)
       c['directed:move'] += step is not None
-    elif r < 0.36:
+    elif r < 0.40:
       step = gen_typed_operand(rng, forest, c)
       c['directed:related-typed-operand'] += step is not None
     if step is not None and r >= 0.16 and rng.random() < 0.2:
